@@ -48,7 +48,9 @@ lines.append('(demo passes before / fails after, unit tests pass) and runs the c
 lines.append('| Id | Breaks | Needs in order to manifest (abridged) | Valid | Caught by | First signature | Caught before strengthening? |')
 lines.append('|---|---|---|---|---|---|---|')
 FIRST = {'C03-s1', 'C04-s1', 'C05-s1', 'C05-s2', 'C13-s1', 'C08-s2', 'C09-s1', 'C09-s2', 'C11-s1', 'C11-s2', 'C12-s2',
-         'C16-s1', 'C17-s1', 'C19-s1', 'C19-s2', 'C20-s2'}
+         'C16-s1', 'C17-s1', 'C19-s1', 'C19-s2', 'C20-s2',
+         'C02-t1', 'C02-t2', 'C03-t2', 'C04-t2', 'C05-t1', 'C05-t2', 'C06-t1', 'C07-t2', 'C08-t1', 'C08-t2', 'C09-t1',
+         'C09-t2', 'C11-t2', 'C12-t1', 'C12-t2', 'C13-t1', 'C15-t1', 'C16-t1', 'C17-t2', 'C18-t2', 'C19-t2', 'C20-t1'}
 n = c = 0
 for d in sorted(glob.glob(os.path.join(ROOT, 'seeded', '*'))):
     meta = json.load(open(os.path.join(d, 'meta.json')))
